@@ -291,7 +291,7 @@ fn read_upper_command(cur: &mut SourceCursor, song: &mut Song) -> Token {
                     },
                     TokenType::DefUserFunction => return read_def_user_function(cur, song),
                     _ => {
-                        println!("[SYSTEM_ERROR] FUNCTION NOT SET : {}", cmd);
+                        if song.debug { println!("[SYSTEM_ERROR] FUNCTION NOT SET : {}", cmd); }
                     },
                 }
             }
@@ -731,7 +731,7 @@ fn lex_calc(song: &mut Song, src: &str, lineno: isize) -> Vec<Token> {
         }
         if lastpos == cur.index {
             let ch = cur.get_char();
-            println!("[skip]({}) {}", cur.line, ch);
+            if song.debug { println!("[skip]({}) {}", cur.line, ch); }
         }
     }
     result
